@@ -1,5 +1,6 @@
 """C03 — incremental processing equals one-shot processing for every chunking (structural part)."""
 import hir
+import hirpp
 from core import AnchorMissing, Unrecognised, loc
 from rules import scanner, stripstream
 
@@ -40,7 +41,9 @@ def run(ctx):
     rep.guarded("same-start", "anstream::adapter", lambda: rule_same_start(facts, rep))
     rep.guarded("byte-at-a-time", AD + "wincon::next_bytes", lambda: rule_byte_at_a_time(facts, rep))
     rep.guarded("W1", "anstream::strip::write", lambda: stripstream.rule_W1_W3(facts, rep))
-    for r, n in (("S1", 7), ("S2", 8), ("owned-state", 9), ("same-start", 6), ("byte-at-a-time", 5), ("W1", 4)):
+    rep.guarded("through", "anstream::strip", lambda: stripstream.rule_through(facts, rep, "through"))
+    rep.guarded("who-writes", "anstream::adapter", lambda: rule_who_writes(facts, rep))
+    for r, n in (("S1", 7), ("S2", 8), ("owned-state", 9), ("same-start", 6), ("byte-at-a-time", 5), ("W1", 4), ("through", 7), ("who-writes", 3)):
         rep.floor(r, n)
 
 
@@ -161,3 +164,19 @@ def rule_byte_at_a_time(facts, rep):
     ok = len(st) == 1 and hir.is_call(st[0], AD + "wincon::next_bytes") and \
         [hir.place_str(a) for a in hir.simp(st[0])["args"]] == ["self.bytes", "self.parser", "self.capture"]
     rep.check(ok, "byte-at-a-time", n["path"], "next-delegates", "", loc(n))
+
+
+def rule_who_writes(facts, rep):
+    """The per-chunk entry points hand out borrows and nothing else: a store into the carried state there happens once per
+    chunk, i.e. at every cut, which is exactly what one-shot processing never executes."""
+    for path, allowed in ((AD + "strip::StripStr::strip_next", ()), (AD + "strip::StripBytes::strip_next", ()),
+                          (AD + "wincon::WinconBytes::extract_next", ("anstream::adapter::wincon::WinconCapture::reset", "alloc::string::String::reserve"))):
+        b = facts.body("anstream", path)
+        rep.fn(path)
+        stores = [n for n in hir.walk(b["hir"]) if n.get("k") in ("assign", "assignop")]
+        calls = [hir.callee(n) for n in hir.walk(b["hir"]) if n.get("k") == "call" and not n.get("ctor") and hir.callee(n) not in allowed
+                 and any(hir.is_local(x, "self") for a in n["args"] for x in hir.walk(a))]
+        conds = [n for n in hir.walk(b["hir"]) if n.get("k") in ("if", "match", "loop")]
+        rep.check(not stores and not calls and not conds, "who-writes", path, "entry-point-only-borrows",
+                  f"per-chunk entry point must only build the iterator from &mut borrows; found stores "
+                  f"{[hirpp.expr(s)[:50] for s in stores]}, calls {calls}, branches {len(conds)}", loc(b))
